@@ -61,6 +61,7 @@ def _case(draw):
         "halo": draw(st.sampled_from(["default", "third"])), "nz": draw(st.integers(8, 16)),
         "turn": draw(st.sampled_from([90.0, 135.0, 180.0, 225.0, 270.0])),
         "cached": draw(st.integers(0, 3)) == 0,
+        "reorigin": draw(st.integers(0, 2)) == 0,
     }
 
 
@@ -89,12 +90,14 @@ def check_case(case):
 
     # ---- end to end: the drawn direction, then a second direction with the SAME met state in the same process
     #      (a direction sweep at fixed forcing is what a wind-rose study does; state kept between runs must not leak)
-    _end_to_end(case, wd, out, primary=True)
-    _end_to_end(case, (wd + case.get("turn", 135.0)) % 360.0, out, primary=False)
+    base = _end_to_end(case, wd, out, primary=True)
+    _end_to_end(case, (wd + case.get("turn", 135.0)) % 360.0, out, primary=False, base=base if case.get("reorigin") else None)
     return out
 
 
-def _end_to_end(case, wd, out, primary):
+def _end_to_end(case, wd, out, primary, base=None):
+    import dataclasses
+
     from bldfm import parse_config_dict, run_bldfm_single
 
     U = case["ws"]
@@ -115,6 +118,18 @@ def _end_to_end(case, wd, out, primary):
         "met": {"z0": case["z0"], "mol": case["mol"], "wind_speed": U, "wind_dir": int(wd) if float(wd).is_integer() else wd},
         "solver": {"closure": case["closure"], "footprint": True, "precision": "double"},
     })
+    if base is not None:
+        # the second run of the sweep on a configuration RE-BUILT from the first one around another origin (three cells
+        # west, two south of the old one): the re-used tower object must be placed relative to the new origin
+        sx, sy = -3 * dx, -2 * dy
+        rl2 = rl + math.degrees(sy / R)
+        ro2 = ro + math.degrees(sx / (R * math.cos(math.radians(rl))))
+        cfg = dataclasses.replace(base, domain=dataclasses.replace(base.domain, ref_lat=rl2, ref_lon=ro2),
+                                  met=dataclasses.replace(base.met, wind_dir=cfg.met.wind_dir))
+        # where the tower's lat/lon lie as seen from the new origin (equirectangular, as the code documents)
+        tx0 = R * math.radians(lon - ro2) * math.cos(math.radians(rl2))
+        ty0 = R * math.radians(lat - rl2)
+        out.label("second-run-on-reoriginated-config")
     try:
         if case.get("cached") and primary:
             # the same run answered from the Green's-function cache (stored by a first call, read back by the second)
@@ -137,13 +152,13 @@ def _end_to_end(case, wd, out, primary):
             r = run_bldfm_single(cfg, cfg.towers[0])
     except Exception as e:
         out.bad(f"run_bldfm_single raised {type(e).__name__}: {e}")
-        return
+        return cfg
     X, Y, _ = r["grid"]
     f = r["flx"]
     if not (np.shape(X) == np.shape(Y) == np.shape(f) == (ny, nx)):
         out.bad(f"result for a {ny}x{nx} (rows x columns) domain has footprint shape {np.shape(f)} on coordinate arrays of shape "
                 f"{np.shape(X)}, {np.shape(Y)}{' (answer read back from the cache)' if case.get('cached') and primary else ''}")
-        return
+        return cfg
     tx, ty = r["tower_xy"]
     if not (abs(tx - tx0) <= 1e-3 and abs(ty - ty0) <= 1e-3):
         out.bad(f"tower placed at {(tx0, ty0)} m by lat/lon is reported at {(tx, ty)}")
@@ -153,7 +168,7 @@ def _end_to_end(case, wd, out, primary):
     if w.sum() <= 0:
         if primary:
             out.label("no-mass-in-disc")
-        return
+        return cfg
     cx, cy = (w * X).sum() / w.sum(), (w * Y).sum() / w.sum()
     bearing = math.degrees(math.atan2(cx - tx, cy - ty)) % 360
     dev = abs((bearing - wd + 180) % 360 - 180)
@@ -179,3 +194,4 @@ def _end_to_end(case, wd, out, primary):
                     f"{'' if primary else '; second run of a direction sweep at fixed met state'})")
     elif primary:
         out.label("bearing-not-asserted(unresolved)")
+    return cfg
